@@ -1,8 +1,255 @@
-/- PyodaModel.Clock — placeholder until the area is modelled. -/
+/-
+  PyodaModel.Clock — FakeClock (pyoda_time/testing/_fake_clock.py), ZonedClock (pyoda_time/_zoned_clock.py).
+
+  1. `FakeClock` as a state machine `(now, autoAdvance)` with `step : FakeClock → Op → FakeClock × Out`.
+     A Python exception inside an operation (`Duration.from_<unit>` out of range, `Instant + Duration`
+     out of range) leaves the state unchanged and is the operation's output.
+     The model is the *intended* behaviour of `advance_<unit>`: build the Duration, then `advance` it.
+  2. `Spec`: the trivial model over two integers (nanoseconds).
+  3. An interleaving model: every operation is the sequence of atomic actions
+     `acquire ; load ; commit ; release` on a non-re-entrant lock (`threading.Lock`): `load` reads
+     `self.__now` into a thread-local, `commit` writes the state computed from that local value
+     (`self.__now += d` is a read followed by a write). `compilePinned` is what the pinned tree does for
+     `advance_<unit>`: the lock is taken, then `advance` takes it again.
+  4. `ZonedClock`: a read of the wrapped clock rendered by a function of the instant.
+-/
 import PyodaModel.Prelude
+import PyodaModel.Elapsed
 
 namespace Pyoda.Clock
+open Pyoda
 
-def handle (_toks : List String) : Option String := none
+structure FakeClock where
+  now : Instant
+  auto : Duration
+  deriving DecidableEq, Repr, Inhabited
+
+inductive TUnit
+  | nanoseconds | ticks | milliseconds | seconds | minutes | hours | days
+  deriving DecidableEq, Repr, Inhabited
+
+/-- `Duration.from_<unit>(n)` as called by `FakeClock.advance_<unit>` -/
+def unitDur : TUnit → Int → R Duration
+  | .nanoseconds => Duration.fromNanoseconds
+  | .ticks => Duration.fromTicks
+  | .milliseconds => Duration.fromMilliseconds
+  | .seconds => Duration.fromSeconds
+  | .minutes => Duration.fromMinutes
+  | .hours => Duration.fromHours
+  | .days => Duration.fromDays
+
+inductive Op
+  | read                               -- get_current_instant()
+  | advance (d : Duration)             -- advance(duration)
+  | advanceUnit (u : TUnit) (n : Int)  -- advance_<unit>(n)
+  | reset (i : Instant)                -- reset(instant)
+  | setAuto (d : Duration)             -- auto_advance = d
+  | getAuto                            -- auto_advance
+  deriving DecidableEq, Repr, Inhabited
+
+inductive Out
+  | instant (i : Instant)
+  | unit
+  | dur (d : Duration)
+  | err (e : PyExc)
+  deriving DecidableEq, Repr, Inhabited
+
+/-- The effect of an operation's critical section, given the value `tmp` it read from `self.__now`. -/
+def commitStep (c : FakeClock) (tmp : Instant) : Op → FakeClock × Out
+  | .read =>
+    match tmp.plus c.auto with
+    | .ok n => ({ c with now := n }, .instant tmp)
+    | .error e => (c, .err e)
+  | .advance d =>
+    match tmp.plus d with
+    | .ok n => ({ c with now := n }, .unit)
+    | .error e => (c, .err e)
+  | .advanceUnit u k =>
+    match unitDur u k with
+    | .error e => (c, .err e)
+    | .ok d =>
+      match tmp.plus d with
+      | .ok n => ({ c with now := n }, .unit)
+      | .error e => (c, .err e)
+  | .reset i => ({ c with now := i }, .unit)
+  | .setAuto d => ({ c with auto := d }, .unit)
+  | .getAuto => (c, .dur c.auto)
+
+/-- One operation of the sequential state machine. -/
+def step (c : FakeClock) (op : Op) : FakeClock × Out := commitStep c c.now op
+
+/-- Run a finite sequence of operations; the outputs in order. -/
+def run (c : FakeClock) : List Op → FakeClock × List Out
+  | [] => (c, [])
+  | op :: rest =>
+    let (c1, o) := step c op
+    let (c2, os) := run c1 rest
+    (c2, o :: os)
+
+/-! ## the trivial model -/
+
+structure Spec where
+  now : Int      -- nanoseconds since the epoch
+  auto : Int     -- nanoseconds
+  deriving DecidableEq, Repr, Inhabited
+
+def TUnit.nanos : TUnit → Int
+  | .nanoseconds => 1 | .ticks => NPT | .milliseconds => NPMs | .seconds => NPS
+  | .minutes => NPMin | .hours => NPH | .days => NPD
+
+inductive SOp
+  | read | advance (ns : Int) | advanceUnit (u : TUnit) (n : Int) | reset (ns : Int) | setAuto (ns : Int) | getAuto
+  deriving DecidableEq, Repr, Inhabited
+
+inductive SOut
+  | instant (ns : Int) | unit | dur (ns : Int) | err (e : PyExc)
+  deriving DecidableEq, Repr, Inhabited
+
+/-- `now + d` as an Instant: `ValueError` when the sum leaves the Duration range (cannot happen for two
+    values the public API produces unless the Instant range is left as well, but it is what is raised),
+    `OverflowError` when it leaves `[Instant.min_value, Instant.max_value]`. -/
+def addInstant (now d : Int) : Except PyExc Int :=
+  if now + d < Duration.MIN_NANOS ∨ now + d > Duration.MAX_NANOS then .error .valueError
+  else if now + d < Instant.MIN_DAYS * NPD ∨ now + d ≥ (Instant.MAX_DAYS + 1) * NPD then .error .overflowError
+  else .ok (now + d)
+
+def specStep (s : Spec) : SOp → Spec × SOut
+  | .read =>
+    match addInstant s.now s.auto with
+    | .ok n => ({ s with now := n }, .instant s.now)
+    | .error e => (s, .err e)
+  | .advance d =>
+    match addInstant s.now d with
+    | .ok n => ({ s with now := n }, .unit)
+    | .error e => (s, .err e)
+  | .advanceUnit u k =>
+    if k * u.nanos < Duration.MIN_NANOS ∨ k * u.nanos > Duration.MAX_NANOS then (s, .err .valueError)
+    else
+      match addInstant s.now (k * u.nanos) with
+      | .ok n => ({ s with now := n }, .unit)
+      | .error e => (s, .err e)
+  | .reset i => ({ s with now := i }, .unit)
+  | .setAuto d => ({ s with auto := d }, .unit)
+  | .getAuto => (s, .dur s.auto)
+
+def runSpec (s : Spec) : List SOp → Spec × List SOut
+  | [] => (s, [])
+  | op :: rest =>
+    let (s1, o) := specStep s op
+    let (s2, os) := runSpec s1 rest
+    (s2, o :: os)
+
+/-! ## threads: atomic actions and a non-re-entrant lock -/
+
+inductive Act
+  | acquire | release | load | commit (op : Op)
+  deriving DecidableEq, Repr, Inhabited
+
+/-- every public method: `with self.__lock: <read now> ; <write state>` -/
+def compile (op : Op) : List Act := [.acquire, .load, .commit op, .release]
+
+/-- the pinned tree: `advance_<unit>` wraps a call of `advance` (which takes the lock) in `with self.__lock:` -/
+def compilePinned : Op → List Act
+  | .advanceUnit u n => [.acquire, .acquire, .load, .commit (.advanceUnit u n), .release, .release]
+  | op => compile op
+
+def compileProg (comp : Op → List Act) : List Op → List Act
+  | [] => []
+  | op :: rest => comp op ++ compileProg comp rest
+
+structure Thread where
+  acts : List Act          -- remaining atomic actions
+  tmp : Instant            -- thread-local copy of `self.__now`
+  deriving Repr, Inhabited
+
+structure Sys where
+  clock : FakeClock
+  lock : Option Nat                 -- the holder of `self.__lock`
+  thr : Nat → Thread
+  log : List (Nat × Op × Out)       -- completed critical sections in commit order: (thread, op, result)
+
+def Sys.setThr (s : Sys) (t : Nat) (x : Thread) : Nat → Thread := fun i => if i = t then x else s.thr i
+
+/-- Thread `t` performs its next atomic action, if it is enabled (`acquire` needs a free lock). -/
+def Sys.step (s : Sys) (t : Nat) : Option Sys :=
+  match (s.thr t).acts with
+  | [] => none
+  | .acquire :: r =>
+    match s.lock with
+    | none => some { s with lock := some t, thr := s.setThr t { (s.thr t) with acts := r } }
+    | some _ => none
+  | .release :: r => some { s with lock := none, thr := s.setThr t { (s.thr t) with acts := r } }
+  | .load :: r => some { s with thr := s.setThr t { acts := r, tmp := s.clock.now } }
+  | .commit op :: r =>
+    let (c', o) := commitStep s.clock (s.thr t).tmp op
+    some { s with clock := c', thr := s.setThr t { (s.thr t) with acts := r }, log := s.log ++ [(t, op, o)] }
+
+/-- a schedule: the thread chosen at each step (each must be enabled) -/
+def Sys.runSched (s : Sys) : List Nat → Option Sys
+  | [] => some s
+  | t :: rest =>
+    match s.step t with
+    | none => none
+    | some s' => s'.runSched rest
+
+def Sys.init (comp : Op → List Act) (c : FakeClock) (progs : Nat → List Op) : Sys :=
+  { clock := c, lock := none, thr := fun t => { acts := compileProg comp (progs t), tmp := c.now }, log := [] }
+
+/-- what thread `t` got back from its completed operations, in order -/
+def Sys.outsOf (s : Sys) (t : Nat) : List Out := (s.log.filter (fun e => e.1 == t)).map (fun e => e.2.2)
+
+/-! ## ZonedClock -/
+
+/-- `ZonedClock.get_current_<view>()`: one read of the wrapped clock, rendered by `view`
+    (`instant.in_zone(zone, calendar)` and its projections). -/
+def zonedRead {α} (view : Instant → R α) (c : FakeClock) : FakeClock × R α :=
+  match step c .read with
+  | (c', .instant i) => (c', view i)
+  | (c', .err e) => (c', .error e)
+  | (c', _) => (c', .error .other)
+
+/-! ## line protocol:
+  `clk.run nowDays nowNod autoDays autoNod op…` with ops `r` | `a days nod` | `u <unit> n` | `s days nod` |
+  `A days nod` | `g`; reply: one item per op (`i days nod` | `ok` | `d days nod` | `!error`) joined by ` ; `,
+  then ` = nowDays nowNod autoDays autoNod`. -/
+
+def parseUnit : String → Option TUnit
+  | "nanoseconds" => some .nanoseconds | "ticks" => some .ticks | "milliseconds" => some .milliseconds
+  | "seconds" => some .seconds | "minutes" => some .minutes | "hours" => some .hours | "days" => some .days
+  | _ => none
+
+def parseOps : Nat → List String → Option (List Op)
+  | _, [] => some []
+  | 0, _ => none
+  | fuel + 1, "r" :: rest => do let l ← parseOps fuel rest; some (.read :: l)
+  | fuel + 1, "g" :: rest => do let l ← parseOps fuel rest; some (.getAuto :: l)
+  | fuel + 1, "a" :: d :: n :: rest => do
+    let d ← parseInt? d; let n ← parseInt? n; let l ← parseOps fuel rest; some (.advance ⟨d, n⟩ :: l)
+  | fuel + 1, "s" :: d :: n :: rest => do
+    let d ← parseInt? d; let n ← parseInt? n; let l ← parseOps fuel rest; some (.reset ⟨⟨d, n⟩⟩ :: l)
+  | fuel + 1, "A" :: d :: n :: rest => do
+    let d ← parseInt? d; let n ← parseInt? n; let l ← parseOps fuel rest; some (.setAuto ⟨d, n⟩ :: l)
+  | fuel + 1, "u" :: u :: n :: rest => do
+    let u ← parseUnit u; let n ← parseInt? n; let l ← parseOps fuel rest; some (.advanceUnit u n :: l)
+  | _, _ => none
+
+def showOut : Out → String
+  | .instant i => "i " ++ showInts [i.dur.days, i.dur.nod]
+  | .unit => "ok"
+  | .dur d => "d " ++ showInts [d.days, d.nod]
+  | .err e => "!" ++ e.name
+
+def handle (toks : List String) : Option String :=
+  match toks with
+  | "clk.run" :: a :: b :: c :: d :: rest => do
+    let l ← parseInts? [a, b, c, d]
+    match l with
+    | [a, b, c, d] =>
+      let ops ← parseOps (rest.length + 1) rest
+      let (cl, outs) := run ⟨⟨⟨a, b⟩⟩, ⟨c, d⟩⟩ ops
+      some (" ; ".intercalate (outs.map showOut) ++ " = " ++
+        showInts [cl.now.dur.days, cl.now.dur.nod, cl.auto.days, cl.auto.nod])
+    | _ => none
+  | _ => none
 
 end Pyoda.Clock
